@@ -244,6 +244,11 @@ ROUND6 = {
  "C18": " Round 6: (R5) construction reads geometry and configuration of the phase space only, never grid data or anything derived from it (effect summaries).",
 }
 ROUND7 = {
+ "C12": " Round 7: (R5) a member function of the grid that the output block calls does not read one of the members it writes before it has written it in that call (records do not depend on the output cadence).",
+ "C13": " Round 7: R4 reports a getter that does not hand out the tested member unchanged.",
+ "C15": " Round 7: (R8) every change of the offsets is followed on every path (CFG, early exits included) by a rebuild of the source-map table: particle and charge see the same displacement.",
+ "C17": " Round 7: (R9) no member initialiser of any constructor uses a member declared after the one it initialises (directly or through the effect summary of a member function it calls).",
+ "C20": " Round 7: (R10) every statement that fills an option group precedes every add() of that group into another (boost copies the group at that moment).",
  "C01": " Round 7: (R10) no transport map is built with the same grid as source and destination.",
  "C02": " Round 7: (R11) no store into the offset table rounds, truncates or snaps an offset.",
  "C03": " Round 7: (R8) the step counts the angle is computed from reach main unconverted (re-evaluates C20 R7); (R9) zeroth and first moment of the interpolation weights (re-evaluates C02 R1): a kick by f displaces by f.",
